@@ -1,0 +1,116 @@
+//go:build verif
+
+package fuse
+
+import (
+	"fmt"
+	"sort"
+
+	iradix "github.com/hashicorp/go-immutable-radix"
+	"github.com/jacobsa/fuse/fuseops"
+	"github.com/jacobsa/fuse/fuseutil"
+)
+
+// Hooks for the verification harness (mutable file system). Nothing here changes behaviour:
+// the harness drives the fuseutil.FileSystem operation object of a MutableFS directly, without a
+// kernel mount, and inspects the tables for consistency.
+
+// VerifFS exposes the operation object that jacobsa/fuse would serve.
+func (dfs *MutableFS) VerifFS() fuseutil.FileSystem { return dfs.fsInternal }
+
+// VerifFirstINode is the value the inode generator starts from.
+const VerifFirstINode = uint64(firstINode)
+
+// VerifInodeGen wraps the package's inode generator.
+type VerifInodeGen struct{ g iNodeGenerator }
+
+// VerifNewInodeGen returns a generator initialised like defaultMutableFS does (smaller initial capacity only).
+func VerifNewInodeGen() *VerifInodeGen {
+	return &VerifInodeGen{g: iNodeGenerator{highestInode: firstINode, freeInodes: make([]fuseops.InodeID, 0, 16)}}
+}
+
+func (v *VerifInodeGen) Alloc() uint64 { return uint64(v.g.allocINode()) }
+func (v *VerifInodeGen) Free(i uint64) { v.g.freeINode(fuseops.InodeID(i)) }
+func (v *VerifInodeGen) State() (highest uint64, free []uint64) {
+	free = make([]uint64, len(v.g.freeInodes))
+	for i, f := range v.g.freeInodes {
+		free[i] = uint64(f)
+	}
+	return uint64(v.g.highestInode), free
+}
+
+// VerifAuditResult is a consistency report over lookupTree / readDirMap / iNodeStore.
+type VerifAuditResult struct {
+	Links      int      // entries of the lookup tree (root excluded)
+	Nodes      int      // entries of the inode store
+	DupInodes  []uint64 // inodes that two live (linked) entries share
+	Problems   []string // other inconsistencies between the three tables
+	NlinkByIno map[uint64]uint32
+	RefByIno   map[uint64]int
+}
+
+// VerifAudit walks the tables of the mutable file system.
+func (dfs *MutableFS) VerifAudit() VerifAuditResult {
+	fs := dfs.fsInternal
+	fs.lock.Lock()
+	defer fs.lock.Unlock()
+	res := VerifAuditResult{NlinkByIno: map[uint64]uint32{}, RefByIno: map[uint64]int{}}
+	seen := map[fuseops.InodeID]string{}
+	rootKey := string(formLookupKey(fuseops.RootInodeID, rootPath))
+	fs.lookupTree.Root().Walk(func(k []byte, v interface{}) bool {
+		if string(k) == rootKey {
+			return false
+		}
+		le := v.(lookupEntry)
+		res.Links++
+		if prev, dup := seen[le.iNode]; dup {
+			res.DupInodes = append(res.DupInodes, uint64(le.iNode))
+			res.Problems = append(res.Problems, fmt.Sprintf("inode %d linked twice (%q, %q)", le.iNode, prev, k[8:]))
+		}
+		seen[le.iNode] = string(k[8:])
+		if _, ok := fs.iNodeStore.Get(formKey(le.iNode)); !ok {
+			res.Problems = append(res.Problems, fmt.Sprintf("linked inode %d (%q) has no node", le.iNode, k[8:]))
+		}
+		var parent uint64
+		for _, b := range k[:8] {
+			parent = parent<<8 | uint64(b)
+		}
+		d, ok := fs.readDirMap[fuseops.InodeID(parent)][le.iNode]
+		if !ok {
+			res.Problems = append(res.Problems, fmt.Sprintf("lookup entry %d/%q -> %d missing from readDirMap", parent, k[8:], le.iNode))
+		} else if d.Name != string(k[8:]) {
+			res.Problems = append(res.Problems, fmt.Sprintf("lookup entry %d/%q -> %d has dirent name %q", parent, k[8:], le.iNode, d.Name))
+		}
+		return false
+	})
+	nd := 0
+	for p, m := range fs.readDirMap {
+		for ino, d := range m {
+			nd++
+			le, ok := fs.lookupTree.Get(formLookupKey(p, d.Name))
+			if !ok || le.(lookupEntry).iNode != ino {
+				res.Problems = append(res.Problems, fmt.Sprintf("dirent %d/%q -> %d missing from lookup tree", p, d.Name, ino))
+			}
+		}
+	}
+	_ = nd
+	res.Nodes = fs.iNodeStore.Len()
+	walkNodes(fs.iNodeStore, func(ino uint64, n *nodeEntry) {
+		res.NlinkByIno[ino] = n.attr.Nlink
+		res.RefByIno[ino] = n.refCount
+	})
+	sort.Strings(res.Problems)
+	sort.Slice(res.DupInodes, func(i, j int) bool { return res.DupInodes[i] < res.DupInodes[j] })
+	return res
+}
+
+func walkNodes(t *iradix.Tree, f func(uint64, *nodeEntry)) {
+	t.Root().Walk(func(k []byte, v interface{}) bool {
+		var ino uint64
+		for _, b := range k {
+			ino = ino<<8 | uint64(b)
+		}
+		f(ino, v.(*nodeEntry))
+		return false
+	})
+}
